@@ -220,6 +220,16 @@ func runStageFile(o *opts) {
 						continue
 					}
 					kk, aa := k, *a
+					// the same artifact moved to the other section (an input is implicitly skip-cache,
+					// so compare with the skip-cache variant of the output)
+					edit(func(s *stage.Stage) {
+						if o := s.Outputs[kk]; o != nil {
+							delete(s.Outputs, kk)
+							moved := *o
+							moved.SkipCache = true
+							s.Inputs[kk] = &moved
+						}
+					})
 					// (a loader that hands back a stage whose keys and paths disagree must show up as a
 					// wrong result, not as a crash of this harness)
 					flip := func(f func(a *artifact.Artifact)) {
